@@ -21,17 +21,23 @@ type SolveResult struct {
 }
 
 type solverSpec struct {
-	name string
-	cmd  func(timeoutS int) []string
-	pre  string
+	name      string
+	cmd       func(timeoutS int) []string
+	pre       string
+	unsatOnly bool // configuration that drops axioms: only its unsat answers are used
 }
 
 var solvers = []solverSpec{
-	{"z3-5.1", func(t int) []string { return []string{"z3-new", "-in", fmt.Sprintf("-T:%d", t)} }, ""},
+	{"z3-5.1", func(t int) []string { return []string{"z3-new", "-in", fmt.Sprintf("-T:%d", t)} }, "", false},
 	{"cvc5-1.0", func(t int) []string {
 		return []string{"cvc5", "--lang=smt2", "--produce-models", fmt.Sprintf("--tlimit=%d", t*1000), "-"}
-	}, "(set-logic ALL)\n"},
-	{"z3-4.8", func(t int) []string { return []string{"/usr/bin/z3", "-in", fmt.Sprintf("-T:%d", t)} }, ""},
+	}, "(set-logic ALL)\n", false},
+	{"z3-4.8", func(t int) []string { return []string{"/usr/bin/z3", "-in", fmt.Sprintf("-T:%d", t)} }, "", false},
+	// same solver without array extensionality instantiation: much faster on the quantified
+	// slice obligations; dropping an axiom keeps unsat answers valid, sat answers are ignored
+	{"z3-5.1-noext", func(t int) []string {
+		return []string{"z3-new", "-in", fmt.Sprintf("-T:%d", t), "smt.array.extensional=false"}
+	}, "", true},
 }
 
 func runSolver(ctx context.Context, sp solverSpec, query string, timeoutS int, wantModel bool) SolveResult {
@@ -56,6 +62,8 @@ func runSolver(ctx context.Context, sp solverSpec, query string, timeoutS int, w
 	switch {
 	case first == "unsat":
 		r.Status = "unsat"
+	case first == "sat" && sp.unsatOnly:
+		r.Status = "unknown"
 	case first == "sat":
 		r.Status = "sat"
 		if i := strings.Index(s, "\n"); i >= 0 {
